@@ -1,4 +1,5 @@
 import OmplModel.Model.PathOps
+import OmplModel.Model.PathOpsRepair
 import OmplModel.Model.SpaceDist
 import OmplModel.Model.SpaceInterp
 import OmplModel.Driver.SpaceIO
@@ -9,11 +10,12 @@ Line-protocol driver of the C17 path post-processing model (header `pathops`).
   env <space> boxes … res <f>        -> ok w=<leaf count>       (only the space is used by the model)
   path <n> <state>*n                 -> ok
   collapse <ms> <me> cm <m> (<a> <b> <ans>)*m
-  rope <delta> <eqTol> cm …          -> r <ret> out … oob <0/1> fo <0/1> | fixed r <ret> out … fo <0/1>
+  rope <delta> <eqTol> cm …          -> r <ret> out … oob <0/1> fo <0/1> | old <the same for the code before fix F9>
   subdivide | interpn <count>
   interp vsc <k> <n>*k
   reduce <ms> <me> <rangeRatio> <k> <raw>*k cm …
-  pshort <ms> <me> <rangeRatio> <snap> <k> <u>*k cm …   -> <result> | fixed <result with the C17-F1 repair>
+  repair <attempts> <k> <sample>*k iv <m> (<state> <0/1>)*m cm …   -> r <2*originalValid + result> out …
+  pshort <ms> <me> <rangeRatio> <snap> <k> <u>*k cm …   -> <result> | old <result of the code before fix F55>
 answers `r <ret> out <k> <state>*k` (`r -1` for the void routines), `idx-error` if the model's checked
 indexing fails.  `cm` is the checkMotion transcript recorded by the harness on the real code: the
 model's `checkMotion` oracle is that table keyed by the pair of states (bit patterns); a pair that
@@ -52,6 +54,16 @@ def pCm (sp : Space Float) : Nat → CmTab → P CmTab
     match r with
     | "0" :: r => pCm sp n (tab.insert (key a ++ "|" ++ key b) false) r
     | "1" :: r => pCm sp n (tab.insert (key a ++ "|" ++ key b) true) r
+    | _ => none
+
+/-- `m` entries `<state> <0/1>` (isValid answers), nothing may follow -/
+def pCm1 (sp : Space Float) : Nat → CmTab → List String → Option CmTab
+  | 0, tab, r => if r.isEmpty then some tab else none
+  | n + 1, tab, r => do
+    let (a, r) ← pState sp r
+    match r with
+    | "0" :: r => pCm1 sp n (tab.insert (key a) false) r
+    | "1" :: r => pCm1 sp n (tab.insert (key a) true) r
     | _ => none
 
 /-- split the token list at the first occurrence of `w` -/
@@ -139,11 +151,11 @@ def step (st : DSt) (ts : List String) : DSt × String :=
               eqCost := tol * delta }
             let fuel := 100000
             let show1 (fixed : Bool) : String :=
-              match ropeShortcutPath E fixed fuel st.path with
+              match ropeShortcutPathG E fixed fuel st.path with
               | some (out, r, oob, fo) =>
-                "r " ++ retStr r ++ " " ++ showPath out ++ (if fixed then "" else " oob " ++ retStr oob) ++ " fo " ++ retStr fo
+                "r " ++ retStr r ++ " " ++ showPath out ++ " oob " ++ retStr oob ++ " fo " ++ retStr fo
               | none => "idx-error"
-            (st, show1 false ++ " | fixed " ++ show1 true)
+            (st, show1 true ++ " | old " ++ show1 false)
           | _, _ => (st, "bad-op")
         | "subdivide", [] =>
           (st, "r -1 " ++ showPath (subdivide (fun a b => interp sp a b 0.5) st.path))
@@ -183,11 +195,35 @@ def step (st : DSt) (ts : List String) : DSt × String :=
             let usA := us.toArray
             let E : PsEnv (St Float) := { cm := cmq, dist := dist sp, interp := interp sp }
             let show1 (fixed : Bool) : String :=
-              match partialShortcutPath E fixed (fun i => usA.getD i 0.0) ms me rr snap st.path with
+              match partialShortcutPathG E fixed (fun i => usA.getD i 0.0) ms me rr snap st.path with
               | some (out, r) => "r " ++ retStr r ++ " " ++ showPath out
               | none => "idx-error"
-            (st, show1 false ++ " | fixed " ++ show1 true)
+            (st, show1 true ++ " | old " ++ show1 false)
           | _, _, _, _, _, _ => (st, "bad-op")
+        | "repair", attempts :: k :: rest2 =>
+          -- repair <attempts> <k> <sample>*k iv <m> (<state> <0/1>)*m   (+ cm section): checkAndRepair with scripted raw samples
+          match parseNat? attempts, parseNat? k with
+          | some attempts, some k =>
+            match pStates sp k rest2 with
+            | some (samples, "iv" :: m :: ivs) =>
+              match (do let m ← parseNat? m; pCm1 sp m {} ivs) with
+              | some vtab =>
+                match st.path with
+                | [] => (st, "bad-op")
+                | first :: _ =>
+                  let sampA := samples.toArray
+                  let E : RepairEnv (St Float) := {
+                    valid := fun a => (vtab.get? (key a)).getD false
+                    cm := cmq
+                    samp := fun i => sampA.getD i first
+                    attempts := attempts }
+                  match checkAndRepair E st.path with
+                  | some (out, orig, res) =>
+                    (st, "r " ++ toString ((if orig then 2 else 0) + (if res then 1 else 0)) ++ " " ++ showPath out)
+                  | none => (st, "idx-error")
+              | none => (st, "bad-op")
+            | _ => (st, "bad-op")
+          | _, _ => (st, "bad-op")
         | _, _ => (st, "bad-op")
   | [] => (st, "bad-op")
 
